@@ -58,6 +58,39 @@ def run_shard(desc):
             if i % nshards == si:
                 progs.append({"tree": t, "text": ref.Renderer().render(t)})
                 labels.append(label)
+    elif kind == "long":
+        n_ = lambda v: ["num", str(v), 0]
+        for _ in range(n):
+            k = rnd.choice(["sum", "args", "list", "stmts", "tern", "andor", "mixed", "inlist", "cmpchain"])
+            m = rnd.choice([64, 65, 100, 128, 129, 200, 300])
+            if k == "sum":
+                t = n_(1)
+                for i in range(2, m + 1):
+                    t = ["bin", rnd.choice(["+", "-", "+"]), t, n_(i)]
+            elif k == "args":
+                t = ["fn", rnd.choice(["sum", "max", "min"]), [gen.num_lit(rnd.randint(-50, 50), rnd.choice([0, 1])) for _ in range(m)]]
+            elif k == "list":
+                t = ["bin", "in", n_(m), ["list", [n_(i) for i in range(1, m + rnd.choice([0, 1]))]]]
+            elif k == "stmts":
+                t = ["stmt", [["bin", "=", ["ref", "acc"], n_(0)]] + [["bin", "+=", ["ref", "acc"], n_(i)] for i in range(1, m)] + [["ref", "acc"]]]
+            elif k == "tern":
+                t = n_(0)
+                for i in range(m):
+                    t = ["tern", ["bin", "==", ["ref", "n1"], n_(2 if i else 1)], n_(i), t] if rnd.random() < 0.5 else ["tern", ["bool", False], n_(i), t]
+            elif k == "andor":
+                t = ["un", rnd.choice(["AND", "OR"]), ["list", [["bool", rnd.random() < 0.9] for _ in range(m)]]]
+            elif k == "inlist":
+                t = ["un", "not", ["bin", "in", ["str", "k"], ["list", [["str", "s%d" % i] for i in range(m)] + ([["str", "k"]] if rnd.random() < 0.5 else [])]]]
+            elif k == "cmpchain":
+                t = ["bool", True]
+                for i in range(m):
+                    t = ["bin", rnd.choice(["&&", "||"]), t, ["bin", rnd.choice(["<", ">=", "=="]), n_(i), n_(rnd.randint(0, m))]]
+            else:
+                t = n_(1)
+                for i in range(m):
+                    t = ["bin", rnd.choice(["+", "*", "-"]), n_(rnd.randint(1, 3)), ["un", "-", t]] if i % 2 else ["post", ["list", [t]][1][0], "++"]
+            progs.append({"tree": t, "text": ref.Renderer().render(t)})
+            labels.append(None)
     else:
         for _ in range(n):
             t = tg.gen("A", rnd.randint(1, 5))
@@ -112,6 +145,8 @@ def run(rep, tier):
     per = 5000 if tier == "quick" else 50000
     for i in range(n // per):
         shards.append(("tree", i, 0, per, "release" if i % 2 else "verifdbg"))
+    for i in range(16):
+        shards.append(("long", i, 0, 40 if tier == "quick" else 1000, "release" if i % 2 else "verifdbg"))
     for part in common.pmap(run_shard, shards):
         rep.merge(part)
     rep.extra["exhaustive"] = True
